@@ -78,6 +78,9 @@ package announce
 //@   ensures-local count("call:republish") == 1 <==> (ok && resend)
 //@   ensures-local count("send:outChan") == 1 ==> evarg("send:outChan", 1) == str(amsg.Cid.str) && evarg("send:outChan", 2) == str(amsg.PeerID)
 //@   ensures-local count("send:outChan") == 1 && !r.filterIPs ==> evarg("send:outChan", 5) == len(amsg.Addrs)
+// handling an announcement never takes anything out of the duplicate filter (only UncacheCid, called by the
+// consumer, does): a rejected or undelivered announcement leaves it as announceCheck left it
+//@   ensures-local count("call:UncacheCid") == 0 && count("call:remove") == 0
 
 // After close the duplicate filter is not touched; a rejected source never
 // reaches the mutex or the filter.
